@@ -54,7 +54,7 @@ func libGoroutines() []string {
 	return out
 }
 
-var c20Endings = []string{"Close", "CloseNow", "peer-close-then-Close", "protocol-error-then-CloseNow", "ctx-expiry-then-Close", "cut-eof-then-Close", "cut-err-then-CloseNow", "silent-peer-Close", "peer-close-then-CloseNow", "closeread-data-then-Close", "closeread-partial-data-stall-then-CloseNow", "closeread-partial-data-stall-then-Close", "write-error-then-CloseNow", "write-error-then-Close", "Close-unsendable-code", "Close-oversize-reason", "Close-and-CloseNow-together-peer-slow-and-silent", "closeread-data-behind-a-stalled-write-then-CloseNow"}
+var c20Endings = []string{"Close", "CloseNow", "peer-close-then-Close", "protocol-error-then-CloseNow", "ctx-expiry-then-Close", "cut-eof-then-Close", "cut-err-then-CloseNow", "silent-peer-Close", "peer-close-then-CloseNow", "closeread-data-then-Close", "closeread-partial-data-stall-then-CloseNow", "closeread-partial-data-stall-then-Close", "write-error-then-CloseNow", "write-error-then-Close", "Close-unsendable-code", "Close-oversize-reason", "Close-and-CloseNow-together-peer-slow-and-silent", "closeread-data-behind-a-stalled-write-then-CloseNow", "closeread-data-silent-peer-ping-during-handshake-then-CloseNow"}
 
 func runC20(r *Run) {
 	t := r.Tape
@@ -86,7 +86,7 @@ func runC20(r *Run) {
 		if p.closeRead {
 			p.abReader, p.netconn = false, false
 		}
-		if p.ending >= 9 && p.ending <= 11 || p.ending == 17 {
+		if p.ending >= 9 && p.ending <= 11 || p.ending == 17 || p.ending == 18 {
 			p.closeRead, p.abReader, p.netconn = true, false, false
 		}
 		if p.ending == 17 {
@@ -175,7 +175,7 @@ func runC20(r *Run) {
 			}
 			openLib += mine
 			// cooperative raw peer: answers pings, echoes Close
-			peerEcho := p.ending != 7 && p.ending != 16
+			peerEcho := p.ending != 7 && p.ending != 16 && p.ending != 18
 			r.S.Go(who+".peer", func() {
 				seen := 0
 				for {
@@ -344,6 +344,22 @@ func runC20(r *Run) {
 			held17 = false
 			r.S.Kick()
 			r.S.Count("probe.closeread-handshake-behind-stalled-write")
+		case 18:
+			// CloseRead's goroutine is in its own close handshake (a data message arrived,
+			// the peer stays silent); meanwhile the application pings, which is allowed
+			// after the Close frame and whose frame write completes. The handshake must
+			// still give up after its 5 s, and a later CloseNow must leave nothing behind.
+			peer.Inject(peer.Encode(wsref.Frame{Fin: true, Opcode: wsref.OpText, Payload: []byte("unexpected data")}))
+			r.S.Sleep(time.Second)
+			pctx, pcancel := context.WithTimeout(bg, time.Second)
+			c.Ping(pctx)
+			pcancel()
+			if p.writes > 0 {
+				c.Write(bg, websocket.MessageText, []byte("refused after the close frame"))
+			}
+			r.S.Sleep(5 * time.Second)
+			cerr = c.CloseNow()
+			r.S.Count("probe.ping-during-closeread-handshake")
 		case 16:
 			if p.pair {
 				cerr = c.Close(websocket.StatusNormalClosure, "done")
